@@ -22,6 +22,6 @@ CasesFor(op) == IF op = "chains" THEN Chains
                 ELSE CasesB(op)
 VARIABLE c
 GInit == c \in {[k |-> Found[i]] : i \in DOMAIN Found} \cup {[k |-> "chains"]}
-GNext == "k" \in DOMAIN c /\ c' \in CasesFor(c.k) /\ Emit(c')
+GNext == "k" \in DOMAIN c /\ \E x \in CasesFor(c.k), w \in BOOLEAN : c' = [f \in DOMAIN x \cup {"warm"} |-> IF f = "warm" THEN w ELSE x[f]] /\ Emit(c')
 GSpec == GInit /\ [][GNext]_c
 =============================================================================
